@@ -51,6 +51,7 @@ func (u *decodeUnit) cycle(cycle int, app risc.Application, ctx *risc.Context) {
 	}
 
 	for {
+		ctx.VerifTick(5, cycle)
 		if !u.outBus.CanAdd() {
 			log.Infou(ctx, "DU", "can't add")
 		}
